@@ -49,19 +49,6 @@ Proof.
   induction cs as [|c cs IHcs]; constructor; [apply IH|exact IHcs].
 Qed.
 
-(* structural well-formedness: names contain no structural character; parentheses iff children *)
-Definition nonstruct (c : N) : bool := negb (is_open c) && negb (is_close c) && negb (c =? COMMA).
-Fixpoint swf (t : etree) : bool :=
-  match t with
-  | ENode name p cs =>
-    forallb nonstruct name &&
-    match p, cs with
-    | PNone, [] => true
-    | PNone, _ :: _ => false
-    | _, [] => false
-    | _, _ :: _ => forallb swf cs
-    end
-  end.
 
 Lemma flatten_length : forall t start pos parent sib, nlen (flatten t start pos parent sib) = size t.
 Proof.
